@@ -27,6 +27,13 @@ package compile
 //@   ensures result == (is(sn, schema.OpdCommand) || is(sn, schema.OpdArgument) || is(sn, schema.OpdOption))
 
 // Include(fs...)(n) holds iff some non-nil filter of fs accepts n; Exclude is its negation.
+// The combinators always return a filter of their own (never one of their arguments, which may be nil - "no filter").
+//@ func Include
+//@   nopanic
+//@   ensures result != nil
+//@ func Exclude
+//@   nopanic
+//@   ensures result != nil
 //@ func Include$1
 //@   nopanic
 //@   ensures result == exists(i, 0, len(*filters), (*filters)[i] != nil && apply_filter((*filters)[i], sn))
@@ -320,9 +327,13 @@ package compile
 // ---------------------------------------------------------------------------
 // References between definitions (C11, C14): the status rule is only ever applied to two existing statements - a
 // reference that cannot be resolved is a compile error, never a nil node.
+// Identity values (C16: an identityref accepts exactly the identities derived from its base, named without qualifier
+// when they belong to the leaf's module and as module:name otherwise): the name handed to NewIdentity is the
+// qualified name with exactly the prefix "<module of the leaf>:" removed when it is there.
 //@ func (*Compiler).identityValues
-//@   assumed
+//@   requires c != nil && cfgNode != nil && ident != nil
 //@   modifies *
+//@   callsite @NewIdentity implies(hasprefix(nm, strp), strp + rname == nm) && implies(!hasprefix(nm, strp), rname == nm)
 //@ func (*Compiler).getIdentities
 //@   requires c != nil && node != nil && forallstr(k, implies(inmap(c.identities, k), c.identities[k] != nil))
 //@   modifies *
